@@ -515,3 +515,439 @@ Proof.
     + exists (l, Some r). split; [now apply Hcomb|]. now left.
     + exists (l, None). split; [now apply Hcomb|]. unfold layer_states; cbn. rewrite Hb. now left.
 Qed.
+
+(** ---- assembling: tryResolve against the specification ---- *)
+Lemma nth_rearrange idx r i :
+  nth i (rearrange idx r) [] = match nth i idx None with Some j => nth j r [] | None => [] end.
+Proof.
+  unfold rearrange. revert i. induction idx as [|o idx IH]; intros [|i]; cbn; try reflexivity. apply IH.
+Qed.
+
+Definition rem_layers_of (m : mrec) : list nat :=
+  match m_base m with None => [] | Some _ => none_positions 0 (m_others m) end.
+Definition rows_of (cd : coldiff) (m : mrec) : list (nat * row) :=
+  map (fun lr => (fst lr, rearrange (nth (fst lr) (cd_other_idx cd) []) (snd lr))) (uniq_layers 0 (m_others m)).
+Definition base_row_of (cd : coldiff) (m : mrec) : option row :=
+  option_map (rearrange (cd_base_idx cd)) (m_base m).
+
+Lemma rem_layers_nonempty m :
+  rem_layers_of m <> [] <-> row_removed m = true.
+Proof.
+  unfold rem_layers_of, row_removed. destruct (m_base m) as [b|]; cbn [is_some andb]; [|split; [congruence|discriminate]].
+  split.
+  - intros H. destruct (none_positions 0 (m_others m)) as [|l t] eqn:E; [congruence|].
+    assert (Hl : In l (none_positions 0 (m_others m))) by (rewrite E; now left).
+    apply none_positions_spec in Hl as [_ Hl]. apply nth_error_In in Hl.
+    apply existsb_exists. now exists None.
+  - intros H. apply existsb_exists in H as (o & Hin & Ho). destruct o; [discriminate|].
+    apply In_nth_error in Hin as [d Hd].
+    assert (Hl : In d (none_positions 0 (m_others m))).
+    { apply none_positions_spec. split; [lia|]. now rewrite Nat.sub_0_r. }
+    intros E. now rewrite E in Hl.
+Qed.
+
+Lemma layer_cell_st_of cd l r i :
+  layer_cell cd l r i =
+  st_of (has_col (nth l (cd_other_idx cd) []) i, nth i (rearrange (nth l (cd_other_idx cd) []) r) []).
+Proof.
+  unfold layer_cell, st_of, has_col. rewrite nth_rearrange. cbn [fst snd].
+  now destruct (nth i (nth l (cd_other_idx cd) []) None).
+Qed.
+
+Definition lcs_of (cd : coldiff) (m : mrec) (i : nat) : list (bool * bytes) :=
+  map (fun lr => (has_col (nth (fst lr) (cd_other_idx cd) []) i,
+                  nth i (rearrange (nth (fst lr) (cd_other_idx cd) []) (snd lr)) []))
+      (uniq_layers 0 (m_others m)).
+
+Lemma lcs_wf cd m i : Forall wf_lc (lcs_of cd m i).
+Proof.
+  unfold lcs_of. apply Forall_forall. intros lc H. apply in_map_iff in H as (lr & <- & _).
+  unfold wf_lc, has_col; cbn [fst snd]. rewrite nth_rearrange.
+  destruct (nth i (nth (fst lr) (cd_other_idx cd) []) None); [discriminate|reflexivity].
+Qed.
+
+(** the states of the surviving rows are, as a set, those of all participating layers *)
+Lemma states_same cd m i (P0 : list cst) :
+  dedupe_ok cd m ->
+  (forall s, In s P0 <-> s = SNoCell /\ row_removed m = true) ->
+  forall s, In s (P0 ++ map st_of (lcs_of cd m i)) <-> In s (states cd m i).
+Proof.
+  intros Hd HP0 s. rewrite in_app_iff, states_in, HP0. split.
+  - intros [[-> Hr]|H].
+    + right. split; [reflexivity|]. unfold row_removed in Hr. apply andb_true_iff in Hr as [Hb He].
+      split; [assumption|]. apply existsb_exists in He as (o & Hin & Ho). destruct o; [discriminate|].
+      apply In_nth_error in Hin as [l Hl]. now exists l.
+    + left. unfold lcs_of in H. rewrite map_map in H. apply in_map_iff in H as ([l r] & <- & Hin).
+      apply uniq_layers_sound in Hin as [_ Hn]. rewrite Nat.sub_0_r in Hn.
+      exists l, r. split; [assumption|]. cbn [fst snd]. symmetry. apply layer_cell_st_of.
+  - intros [(l & r & Hn & ->)|(-> & Hb & l & Hn)].
+    + right. destruct (uniq_layers_complete (m_others m) 0 l r Hn) as (l' & r' & Hin & Hk).
+      pose proof (uniq_layers_sound _ _ _ _ Hin) as [_ Hn']. rewrite Nat.sub_0_r in Hn'.
+      rewrite <- (Hd l' l r' r Hn' Hn Hk i).
+      unfold lcs_of. rewrite map_map. apply in_map_iff. exists (l', r'). split; [|assumption].
+      cbn [fst snd]. symmetry. apply layer_cell_st_of.
+    + left. split; [reflexivity|]. unfold row_removed. rewrite Hb. cbn [andb].
+      apply existsb_exists. exists None. split; [|reflexivity]. now apply nth_error_In in Hn.
+Qed.
+
+Lemma resolve_cell_spec cd m i :
+  cd_consistent cd -> length (m_others m) = cd_layers cd -> dedupe_ok cd m ->
+  i < length (cd_names cd) ->
+  let st := resolve_cell cd (base_row_of cd m) (rem_layers_of m) (rows_of cd m) i in
+  c_unres st = conflictb (base_st cd m i) (states cd m i) /\
+  (row_removed m = false -> conflictb (base_st cd m i) (states cd m i) = false ->
+   c_res st = render (spec_value (base_st cd m i) (states cd m i))).
+Proof.
+  intros (Hlb & Hlo & Hcons) Hlen Hd Hi st. subst st.
+  rewrite resolve_cell_kstep.
+  (* facts about the layers involved *)
+  assert (Hlay : forall l r, In (l, r) (uniq_layers 0 (m_others m)) -> l < cd_layers cd).
+  { intros l r H. apply uniq_layers_sound in H as [_ H]. rewrite Nat.sub_0_r in H.
+    rewrite <- Hlen. apply nth_error_Some. congruence. }
+  assert (Hrl : forall l, In l (rem_layers_of m) -> l < cd_layers cd).
+  { intros l H. unfold rem_layers_of in H. destruct (m_base m); [|destruct H].
+    apply none_positions_spec in H as [_ H]. rewrite Nat.sub_0_r in H.
+    rewrite <- Hlen. apply nth_error_Some. congruence. }
+  assert (Hbase : base_cell (base_row_of cd m) i =
+                  match nth i (cd_base_idx cd) None, m_base m with
+                  | Some j, Some b => nth j b []
+                  | _, _ => []
+                  end).
+  { unfold base_cell, base_row_of. destruct (m_base m) as [b|]; cbn [option_map].
+    - rewrite nth_rearrange. now destruct (nth i (cd_base_idx cd) None).
+    - now destruct (nth i (cd_base_idx cd) None). }
+  assert (Hpres : is_some (base_row_of cd m) = is_some (m_base m)).
+  { unfold base_row_of. now destruct (m_base m). }
+  assert (Hr0 : (rem_layers_of m <> [] -> is_some (m_base m) = true)).
+  { unfold rem_layers_of. destruct (m_base m); [reflexivity|congruence]. }
+  destruct (has_col (cd_base_idx cd) i) eqn:Ebh.
+  - (* a column of the base *)
+    assert (Ej : exists j, nth i (cd_base_idx cd) None = Some j).
+    { unfold has_col in Ebh. destruct (nth i (cd_base_idx cd) None) as [j|]; [now exists j|discriminate]. }
+    destruct Ej as [j Ej].
+    set (bv := base_cell (base_row_of cd m) i) in *.
+    set (bpres := is_some (base_row_of cd m)) in *.
+    set (r0 := match rem_layers_of m with [] => false | _ => true end).
+    assert (Einit : cell_init cd (base_row_of cd m) (rem_layers_of m) i =
+                    {| c_add := None; c_mod := None; c_rem := r0; c_res := bv; c_unres := false |}).
+    { unfold cell_init. f_equal.
+      subst r0. destruct (rem_layers_of m) as [|l t] eqn:E; [reflexivity|].
+      cbn [existsb]. destruct (Hcons l (Hrl l (or_introl eq_refl))) as [_ Hc].
+      destruct (Hc i Hi) as [Ha _]. rewrite Ha, Ebh. cbn [negb].
+      now rewrite andb_false_r. }
+    assert (Emap : map (fun lr => (in_added cd (fst lr) i, in_removed cd (fst lr) i, nth i (snd lr) [])) (rows_of cd m)
+                   = map (fun lc : bool * bytes => (false, negb (fst lc), snd lc)) (lcs_of cd m i)).
+    { unfold rows_of, lcs_of. rewrite !map_map. apply map_ext_in. intros [l r] Hin. cbn [fst snd].
+      destruct (Hcons l (Hlay l r Hin)) as [_ Hc]. destruct (Hc i Hi) as [Ha Hr].
+      rewrite Ha, Hr, Ebh. cbn [negb andb]. now rewrite andb_false_r. }
+    rewrite Einit, Emap.
+    assert (Hbv : bpres = false -> bv = []).
+    { subst bpres bv. rewrite Hbase, Hpres, Ej. now destruct (m_base m). }
+    assert (Hr0b : r0 = true -> bpres = true).
+    { subst r0 bpres. rewrite Hpres. destruct (rem_layers_of m) eqn:E; [discriminate|].
+      intros _. apply Hr0. congruence. }
+    pose proof (InvB_fold bpres bv r0 Hbv (lcs_of cd m i) (if r0 then [SNoCell] else [])
+                  {| c_add := None; c_mod := None; c_rem := r0; c_res := bv; c_unres := false |}) as HI.
+    assert (Hna0 : no_absent (if r0 then [SNoCell] else [])).
+    { destruct r0; repeat constructor; discriminate. }
+    specialize (HI Hna0 (lcs_wf cd m i) (InvB_init bpres bv r0 Hbv Hr0b)).
+    destruct HI as (_ & Hun & Hst).
+    assert (Ebst : (if bpres then SVal bv else SAbsent) = base_st cd m i).
+    { unfold base_st. rewrite Ej. subst bpres bv. rewrite Hbase, Hpres, Ej. now destruct (m_base m). }
+    rewrite Ebst in *.
+    assert (Hsame : forall s, In s ((if r0 then [SNoCell] else []) ++ map st_of (lcs_of cd m i)) <-> In s (states cd m i)).
+    { apply states_same; [assumption|]. intros s. subst r0.
+      rewrite <- rem_layers_nonempty. destruct (rem_layers_of m); cbn; split.
+      - intros []. - intros [_ H]. congruence.
+      - intros [<-|[]]. split; [reflexivity|discriminate]. - intros [-> _]. now left. }
+    assert (Hsc : same_changes (base_st cd m i) ((if r0 then [SNoCell] else []) ++ map st_of (lcs_of cd m i)) (states cd m i)).
+    { intros s _. apply Hsame. }
+    rewrite (conflictb_same _ _ _ Hsc) in Hun, Hst.
+    split; [exact Hun|].
+    intros Hrr Hnc. destruct (Hst Hnc) as (_ & _ & Hres).
+    rewrite Hres.
+    + f_equal. apply spec_value_same; [assumption|]. now rewrite (conflictb_same _ _ _ Hsc).
+    + subst r0. destruct (rem_layers_of m) eqn:E; [reflexivity|].
+      assert (Hne : rem_layers_of m <> []) by congruence. apply rem_layers_nonempty in Hne. congruence.
+  - (* a column the base does not have *)
+    assert (Ej : nth i (cd_base_idx cd) None = None).
+    { unfold has_col in Ebh. destruct (nth i (cd_base_idx cd) None) as [j|]; [discriminate|reflexivity]. }
+    assert (Ebv : base_cell (base_row_of cd m) i = []).
+    { rewrite Hbase, Ej. reflexivity. }
+    rewrite Ebv.
+    set (bpres := is_some (base_row_of cd m)) in *.
+    set (r0 := existsb (fun layer => negb (in_added cd layer i)) (rem_layers_of m)).
+    assert (Einit : cell_init cd (base_row_of cd m) (rem_layers_of m) i =
+                    {| c_add := None; c_mod := None; c_rem := r0; c_res := []; c_unres := false |}).
+    { unfold cell_init. f_equal. fold (base_cell (base_row_of cd m) i). exact Ebv. }
+    assert (Emap : map (fun lr => (in_added cd (fst lr) i, in_removed cd (fst lr) i, nth i (snd lr) [])) (rows_of cd m)
+                   = map (fun lc : bool * bytes => (fst lc, false, snd lc)) (lcs_of cd m i)).
+    { unfold rows_of, lcs_of. rewrite !map_map. apply map_ext_in. intros [l r] Hin. cbn [fst snd].
+      destruct (Hcons l (Hlay l r Hin)) as [_ Hc]. destruct (Hc i Hi) as [Ha Hr].
+      rewrite Ha, Hr, Ebh. cbn [negb andb]. now rewrite andb_true_r. }
+    rewrite Einit, Emap.
+    assert (Hr0b : r0 = true -> bpres = true).
+    { subst r0 bpres. rewrite Hpres. intros H. apply Hr0. intros E. rewrite E in H. discriminate H. }
+    pose proof (InvA_fold bpres (lcs_of cd m i) []
+                  {| c_add := None; c_mod := None; c_rem := r0; c_res := []; c_unres := false |}
+                  (Forall_nil _) (lcs_wf cd m i) (InvA_init bpres r0 Hr0b)) as (Hun & Hst).
+    cbn [app] in Hun, Hst.
+    assert (Ebst : SNoCell = base_st cd m i) by (unfold base_st; now rewrite Ej).
+    rewrite Ebst in *.
+    assert (Hsc : same_changes (base_st cd m i) (map st_of (lcs_of cd m i)) (states cd m i)).
+    { intros s Hc.
+      pose proof (states_same cd m i (if row_removed m then [SNoCell] else []) Hd) as Hs.
+      assert (HP0 : forall s, In s (if row_removed m then [SNoCell] else []) <-> s = SNoCell /\ row_removed m = true).
+      { intros s'. destruct (row_removed m); cbn; split.
+        - intros [<-|[]]. now split. - intros [-> _]. now left.
+        - intros []. - intros [_ H]. discriminate H. }
+      specialize (Hs HP0 s). rewrite <- Hs, in_app_iff. split; [now right|].
+      intros [H|H]; [|assumption]. exfalso. apply HP0 in H as [-> _]. rewrite <- Ebst in Hc. discriminate Hc. }
+    rewrite (conflictb_same _ _ _ Hsc) in Hun, Hst.
+    split; [exact Hun|].
+    intros _ Hnc. destruct (Hst Hnc) as (_ & Hres & _). rewrite Hres.
+    f_equal. apply spec_value_same; [assumption|]. now rewrite (conflictb_same _ _ _ Hsc).
+Qed.
+
+(** ---- tryResolve / Resolve as a whole ---- *)
+Lemma flagged_positions {A} (f : A -> bool) (d : A) (l : list A) k i :
+  In i (map fst (filter (fun p => f (snd p)) (combine (seq k (length l)) l))) <->
+  k <= i < k + length l /\ f (nth (i - k) l d) = true.
+Proof.
+  revert k. induction l as [|x l IH]; intros k; cbn [length seq combine filter map].
+  - split; [intros []|]. intros [H _]. lia.
+  - cbn [snd]. destruct (f x) eqn:E; cbn [map fst In]; rewrite IH; split.
+    + intros [<-|[Hk H]].
+      * split; [lia|]. now rewrite Nat.sub_diag.
+      * split; [lia|]. replace (i - k) with (S (i - S k)) by lia. exact H.
+    + intros [Hk H]. destruct (i - k) as [|n] eqn:En; [left; lia|].
+      right. split; [lia|]. replace (i - S k) with n by lia. exact H.
+    + intros [Hk H]. split; [lia|]. replace (i - k) with (S (i - S k)) by lia. exact H.
+    + intros [Hk H]. destruct (i - k) as [|n] eqn:En; [cbn in H; congruence|].
+      split; [lia|]. replace (i - S k) with n by lia. exact H.
+Qed.
+
+Lemma try_resolve_cells cd m :
+  try_resolve cd m =
+  let cells := map (resolve_cell cd (base_row_of cd m) (rem_layers_of m) (rows_of cd m)) (seq 0 (length (cd_names cd))) in
+  let unres := map fst (filter (fun p => c_unres (snd p)) (combine (seq 0 (length cells)) cells)) in
+  {| r_resolved := match rem_layers_of m with
+                   | [] => match unres with [] => true | _ => false end
+                   | _ => false
+                   end;
+     r_row := Some (map c_res cells);
+     r_unres := unres |}.
+Proof. reflexivity. Qed.
+
+Definition dummy_cstate : cstate := {| c_add := None; c_mod := None; c_rem := false; c_res := []; c_unres := false |}.
+
+Lemma try_resolve_unres cd m i :
+  In i (r_unres (try_resolve cd m)) <->
+  i < length (cd_names cd) /\
+  c_unres (resolve_cell cd (base_row_of cd m) (rem_layers_of m) (rows_of cd m) i) = true.
+Proof.
+  rewrite try_resolve_cells. cbn [r_unres].
+  rewrite (flagged_positions c_unres dummy_cstate). rewrite map_length, seq_length, Nat.sub_0_r.
+  split; intros [Hi H].
+  - split; [lia|]. rewrite (nth_indep _ _ (resolve_cell cd (base_row_of cd m) (rem_layers_of m) (rows_of cd m) 0)) in H
+      by (rewrite map_length, seq_length; lia).
+    rewrite map_nth, seq_nth in H by lia. exact H.
+  - split; [lia|]. rewrite (nth_indep _ _ (resolve_cell cd (base_row_of cd m) (rem_layers_of m) (rows_of cd m) 0))
+      by (rewrite map_length, seq_length; lia).
+    rewrite map_nth, seq_nth by lia. exact H.
+Qed.
+
+Lemma try_resolve_row cd m i :
+  i < length (cd_names cd) ->
+  exists row, r_row (try_resolve cd m) = Some row /\ length row = length (cd_names cd) /\
+              nth i row [] = c_res (resolve_cell cd (base_row_of cd m) (rem_layers_of m) (rows_of cd m) i).
+Proof.
+  intros Hi. rewrite try_resolve_cells. cbn [r_row]. eexists. split; [reflexivity|].
+  split; [now rewrite !map_length, seq_length|].
+  rewrite map_map.
+  rewrite (nth_indep _ [] ((fun j => c_res (resolve_cell cd (base_row_of cd m) (rem_layers_of m) (rows_of cd m) j)) 0))
+    by (rewrite map_length, seq_length; lia).
+  rewrite (map_nth (fun j => c_res (resolve_cell cd (base_row_of cd m) (rem_layers_of m) (rows_of cd m) j))).
+  rewrite seq_nth by lia. reflexivity.
+Qed.
+
+(** Row level, any number of layers: column i is reported unresolved exactly when the
+    specification finds two different changes; otherwise (no branch removed the row)
+    the resolved cell is the specified value. *)
+Theorem resolve_cell_correct cd m i :
+  cd_consistent cd -> length (m_others m) = cd_layers cd -> dedupe_ok cd m ->
+  i < length (cd_names cd) ->
+  (In i (r_unres (try_resolve cd m)) <-> conflictb (base_st cd m i) (states cd m i) = true) /\
+  (row_removed m = false -> conflictb (base_st cd m i) (states cd m i) = false ->
+   exists row, r_row (try_resolve cd m) = Some row /\
+               nth i row [] = render (spec_value (base_st cd m i) (states cd m i))).
+Proof.
+  intros Hc Hl Hd Hi.
+  destruct (resolve_cell_spec cd m i Hc Hl Hd Hi) as [Hun Hres].
+  split.
+  - rewrite try_resolve_unres, Hun. split; [now intros [_ H]|now split].
+  - intros Hr Hnc. destruct (try_resolve_row cd m i Hi) as (row & Hrow & _ & Hn).
+    exists row. split; [assumption|]. rewrite Hn. now apply Hres.
+Qed.
+
+(** the record is reported resolved exactly when no branch removed the row and no column conflicts *)
+Theorem resolved_flag_correct cd m :
+  cd_consistent cd -> length (m_others m) = cd_layers cd -> dedupe_ok cd m ->
+  (r_resolved (try_resolve cd m) = true <->
+   row_removed m = false /\
+   forall i, i < length (cd_names cd) -> conflictb (base_st cd m i) (states cd m i) = false).
+Proof.
+  intros Hc Hl Hd.
+  assert (Hun : forall i, In i (r_unres (try_resolve cd m)) <->
+                     i < length (cd_names cd) /\ conflictb (base_st cd m i) (states cd m i) = true).
+  { intros i. rewrite try_resolve_unres. split; intros [Hi H]; (split; [assumption|]).
+    - now rewrite <- (proj1 (resolve_cell_spec cd m i Hc Hl Hd Hi)).
+    - now rewrite (proj1 (resolve_cell_spec cd m i Hc Hl Hd Hi)). }
+  assert (Hres : r_resolved (try_resolve cd m) = true <-> rem_layers_of m = [] /\ r_unres (try_resolve cd m) = []).
+  { rewrite try_resolve_cells. cbn [r_resolved r_unres].
+    destruct (rem_layers_of m); [|split; [discriminate|intros [H _]; discriminate H]].
+    destruct (map fst _); split; try discriminate; auto. intros [_ H]; discriminate H. }
+  rewrite Hres. split.
+  - intros [Hr Hu]. split.
+    + destruct (row_removed m) eqn:E; [|reflexivity]. apply rem_layers_nonempty in E. congruence.
+    + intros i Hi. destruct (conflictb _ _) eqn:E; [|reflexivity].
+      assert (In i (r_unres (try_resolve cd m))) by (apply Hun; now split). rewrite Hu in H. destruct H.
+  - intros [Hr Hall]. split.
+    + destruct (rem_layers_of m) eqn:E; [reflexivity|].
+      assert (Hne : rem_layers_of m <> []) by congruence. apply rem_layers_nonempty in Hne. congruence.
+    + destruct (r_unres (try_resolve cd m)) as [|i t]; [reflexivity|].
+      assert (Hi : In i (i :: t)) by (now left).
+      apply Hun in Hi as [Hi Hc']. rewrite (Hall i Hi) in Hc'. discriminate Hc'.
+Qed.
+
+(** ---- never silent: where a cell of the resolved row comes from ---- *)
+Lemma kstep_origin bpres bv st x :
+  kstep bpres bv st x = st \/ c_res (kstep bpres bv st x) = snd x \/ c_unres (kstep bpres bv st x) = true.
+Proof.
+  destruct x as [[ad rm] v]. unfold kstep. cbn [snd].
+  destruct ad.
+  - destruct (c_add st) as [a|]; [destruct (beqb a v)|]; auto.
+  - destruct (c_add st) as [a|]; [auto|].
+    destruct rm; [destruct (c_mod st); auto|].
+    destruct (negb bpres || negb (beqb bv v)).
+    + destruct (c_rem st); [auto|]. destruct (c_mod st) as [mv|]; [destruct (beqb mv v)|]; auto.
+    + destruct (c_rem st || is_some (c_mod st)); auto.
+Qed.
+
+Lemma kstep_unres_mono bpres bv st x : c_unres st = true -> c_unres (kstep bpres bv st x) = true.
+Proof.
+  intros H. destruct x as [[ad rm] v]. unfold kstep.
+  destruct ad.
+  - destruct (c_add st) as [a|]; [destruct (beqb a v)|]; auto.
+  - destruct (c_add st) as [a|]; [auto|].
+    destruct rm; [destruct (c_mod st); auto|].
+    destruct (negb bpres || negb (beqb bv v)).
+    + destruct (c_rem st); [auto|]. destruct (c_mod st) as [mv|]; [destruct (beqb mv v)|]; auto.
+    + destruct (c_rem st || is_some (c_mod st)); auto.
+Qed.
+
+Definition from_seen (bpres : bool) (bv : bytes) (seen : list (bool * bool * bytes)) (st : cstate) : Prop :=
+  c_unres st = false -> (bpres = true /\ c_res st = bv) \/ exists x, In x seen /\ c_res st = snd x.
+
+Lemma from_seen_fold bpres bv l : forall seen st,
+  from_seen bpres bv seen st -> from_seen bpres bv (seen ++ l) (fold_left (kstep bpres bv) l st).
+Proof.
+  induction l as [|x l IH]; intros seen st H; cbn [fold_left]; [now rewrite app_nil_r|].
+  replace (seen ++ x :: l) with ((seen ++ [x]) ++ l) by (now rewrite <- app_assoc).
+  apply IH. intros Hu.
+  destruct (kstep_origin bpres bv st x) as [E|[E|E]].
+  - rewrite E in *. destruct (H Hu) as [Hb|(y & Hy & Hr)]; [now left|].
+    right. exists y. split; [apply in_or_app; now left|assumption].
+  - right. exists x. split; [apply in_or_app; right; now left|assumption].
+  - congruence.
+Qed.
+
+Lemma first_step_assigns bv st x :
+  c_add st = None -> c_mod st = None -> c_rem st = false ->
+  c_res (kstep false bv st x) = snd x.
+Proof.
+  intros Ha Hm Hr. destruct x as [[ad rm] v]. unfold kstep. rewrite Ha, Hm, Hr. cbn [snd negb orb].
+  destruct ad; [reflexivity|]. destruct rm; reflexivity.
+Qed.
+
+Lemma resolve_cell_origin cd m i :
+  rows_of cd m <> [] ->
+  let st := resolve_cell cd (base_row_of cd m) (rem_layers_of m) (rows_of cd m) i in
+  c_unres st = false ->
+  (is_some (m_base m) = true /\ c_res st = base_cell (base_row_of cd m) i) \/
+  exists lr, In lr (rows_of cd m) /\ c_res st = nth i (snd lr) [].
+Proof.
+  intros Hne st Hu. subst st. rewrite resolve_cell_kstep in *.
+  set (tr := fun lr : nat * row => (in_added cd (fst lr) i, in_removed cd (fst lr) i, nth i (snd lr) [])) in *.
+  assert (Hpres : is_some (base_row_of cd m) = is_some (m_base m)).
+  { unfold base_row_of. now destruct (m_base m). }
+  assert (Hfin : forall seen st, from_seen (is_some (base_row_of cd m)) (base_cell (base_row_of cd m) i) seen st ->
+            (forall x, In x seen -> In x (map tr (rows_of cd m))) ->
+            forall l, (forall x, In x l -> In x (map tr (rows_of cd m))) ->
+            c_unres (fold_left (kstep (is_some (base_row_of cd m)) (base_cell (base_row_of cd m) i)) l st) = false ->
+            (is_some (m_base m) = true /\
+             c_res (fold_left (kstep (is_some (base_row_of cd m)) (base_cell (base_row_of cd m) i)) l st) = base_cell (base_row_of cd m) i) \/
+            exists lr, In lr (rows_of cd m) /\
+             c_res (fold_left (kstep (is_some (base_row_of cd m)) (base_cell (base_row_of cd m) i)) l st) = nth i (snd lr) []).
+  { intros seen st HJ Hs l Hl Hun.
+    destruct (from_seen_fold _ _ l seen st HJ Hun) as [[Hb Hr]|(x & Hx & Hr)].
+    - left. split; [now rewrite <- Hpres|assumption].
+    - right. assert (Hin : In x (map tr (rows_of cd m))).
+      { apply in_app_or in Hx as [Hx|Hx]; auto. }
+      apply in_map_iff in Hin as (lr & <- & Hlr). exists lr. split; [assumption|exact Hr]. }
+  destruct (is_some (m_base m)) eqn:Eb.
+  - (* base row present: the initial cell is the base cell *)
+    apply (Hfin [] _); [|intros x []|auto|exact Hu].
+    intros _. left. split; [now rewrite Hpres|reflexivity].
+  - (* no base row: the first row always assigns *)
+    destruct (rows_of cd m) as [|lr0 rest] eqn:Er; [congruence|].
+    cbn [map fold_left] in *.
+    assert (Erem : rem_layers_of m = []).
+    { unfold rem_layers_of. destruct (m_base m); [discriminate|reflexivity]. }
+    rewrite Erem in *. rewrite Hpres in *.
+    apply (Hfin [tr lr0] _); [| |intros x Hx; now right|exact Hu].
+    + intros _. right. exists (tr lr0). split; [now left|].
+      apply first_step_assigns; reflexivity.
+    + intros x [<-|[]]. now left.
+Qed.
+
+Lemma filter_length_pos {A} (f : A -> bool) l : length (filter f l) <> 0 -> exists x, In x l /\ f x = true.
+Proof.
+  induction l as [|x l IH]; cbn; [congruence|]. destruct (f x) eqn:E.
+  - intros _. exists x. split; [now left|assumption].
+  - intros H. destruct (IH H) as (y & Hy & Hf). exists y. split; [now right|assumption].
+Qed.
+
+(** Any number of layers, no hypothesis on the ColDiff: every cell of a row that the
+    resolver reports as resolved is the base's cell or some branch's cell for that
+    key and column (as seen through the index maps; "" where that table has no such column). *)
+Theorem never_silent cd m row i :
+  r_resolved (resolve cd m) = true -> r_row (resolve cd m) = Some row -> i < length (cd_names cd) ->
+  (is_some (m_base m) = true /\ nth i row [] = render (base_st cd m i)) \/
+  (exists l raw, nth_error (m_others m) l = Some (Some raw) /\ nth i row [] = render (layer_cell cd l raw i)).
+Proof.
+  unfold resolve.
+  destruct (Nat.eqb (length (filter is_some (m_others m))) 0 || _) eqn:Eearly; [cbn; discriminate|].
+  intros Hres Hrow Hi.
+  apply orb_false_iff in Eearly as [Enn _]. apply Nat.eqb_neq in Enn.
+  destruct (filter_length_pos _ _ Enn) as (o & Hin & Ho). destruct o as [raw0|]; [|discriminate].
+  apply In_nth_error in Hin as [d Hd].
+  destruct (uniq_layers_complete (m_others m) 0 d raw0 Hd) as (l0 & r0 & Hl0 & _).
+  assert (Hne : rows_of cd m <> []).
+  { unfold rows_of. intros E. apply map_eq_nil in E. rewrite E in Hl0. destruct Hl0. }
+  destruct (try_resolve_row cd m i Hi) as (row' & Hrow' & _ & Hn).
+  rewrite Hrow in Hrow'. injection Hrow' as <-.
+  assert (Hun : c_unres (resolve_cell cd (base_row_of cd m) (rem_layers_of m) (rows_of cd m) i) = false).
+  { destruct (c_unres _) eqn:E; [|reflexivity]. exfalso.
+    assert (Hiu : In i (r_unres (try_resolve cd m))) by (apply try_resolve_unres; now split).
+    rewrite try_resolve_cells in Hres, Hiu. cbn [r_resolved r_unres] in Hres, Hiu.
+    destruct (rem_layers_of m); [|discriminate]. destruct (map fst _); [destruct Hiu|discriminate]. }
+  destruct (resolve_cell_origin cd m i Hne Hun) as [[Hb Hr]|(lr & Hlr & Hr)].
+  - left. split; [assumption|]. rewrite Hn, Hr.
+    unfold base_cell, base_row_of, base_st. destruct (m_base m) as [b|]; [|discriminate]. cbn [option_map].
+    rewrite nth_rearrange. now destruct (nth i (cd_base_idx cd) None).
+  - right. unfold rows_of in Hlr. apply in_map_iff in Hlr as ([l raw] & <- & Hin').
+    apply uniq_layers_sound in Hin' as [_ Hnth]. rewrite Nat.sub_0_r in Hnth.
+    exists l, raw. split; [assumption|]. rewrite Hn, Hr. cbn [fst snd].
+    rewrite nth_rearrange. unfold layer_cell. now destruct (nth i (nth l (cd_other_idx cd) []) None).
+Qed.
